@@ -311,3 +311,82 @@ Proof.
   - rewrite (reverse_table_spec tbl OK c t); [|unfold jsonl_blocksize; lia|exact D|exact H].
     rewrite next_all_eq. reflexivity.
 Qed.
+
+(* ---- text mode needs no restriction on \r: universal newlines forward, bytes.splitlines in reverse --- *)
+Section Universal.
+  Context {obj : Type}.
+  Variable loads : text -> option obj.
+  Variable ws : N -> bool.
+  Hypothesis ws_LF : ws LF = true.
+  Hypothesis loads_lf : forall s, loads (s ++ [LF]) = loads s.
+
+  Lemma fit_other x t : (x =? LF) = false -> (x =? CR) = false ->
+    file_iter_text (x :: t) = cons_head x (file_iter_text t).
+  Proof. intros A B. cbn [file_iter_text]. rewrite A, B. reflexivity. Qed.
+  Lemma fit_cr t : starts_lf t = false -> file_iter_text (CR :: t) = [LF] :: file_iter_text t.
+  Proof.
+    intros E. cbn [file_iter_text]. change (CR =? LF) with false. change (CR =? CR) with true. cbv iota.
+    destruct t as [|d t]; [reflexivity|]. cbn [starts_lf] in E. rewrite E. reflexivity.
+  Qed.
+
+  Lemma forward_text_universal ie : forall t cur,
+    jsonl_objects loads ws ie (glue cur (file_iter_text t))
+    = jsonl_objects loads ws ie (glue cur (splitlines is_nl_byte t)).
+  Proof.
+    intros t. pattern t. apply (split_ind is_nl_byte); clear t.
+    - reflexivity.
+    - intros x t B IH cur.
+      assert (A1 : (x =? LF) = false /\ (x =? CR) = false) by (unfold is_nl_byte in B; apply orb_false_iff in B; exact B).
+      destruct A1 as [A1 A2]. rewrite fit_other, sl_nobrk by assumption. rewrite !glue_cons_head. apply IH.
+    - intros x t B E IH cur.
+      assert (x = LF).
+      { unfold is_nl_byte in B. unfold CR in E. rewrite E, orb_false_r in B. apply N.eqb_eq in B. exact B. }
+      subst x. rewrite sl_brk by assumption. cbn [file_iter_text]. change (LF =? LF) with true. cbv iota.
+      cbn [glue]. rewrite app_nil_r. apply (objects_term_lf loads ws ws_LF loads_lf).
+      specialize (IH []). rewrite !glue_nil in IH. exact IH.
+    - intros t B IH cur. rewrite sl_crlf by assumption.
+      change (file_iter_text (CR :: LF :: t)) with ([LF] :: file_iter_text t).
+      cbn [glue]. rewrite app_nil_r. apply (objects_term_lf loads ws ws_LF loads_lf).
+      specialize (IH []). rewrite !glue_nil in IH. exact IH.
+    - intros t B E IH cur. rewrite sl_cr, fit_cr by assumption.
+      cbn [glue]. rewrite app_nil_r. apply (objects_term_lf loads ws ws_LF loads_lf).
+      specialize (IH []). rewrite !glue_nil in IH. exact IH.
+  Qed.
+
+  Lemma objects_ril_tail ie t :
+    jsonl_objects loads ws ie (ril_tail t) = jsonl_objects loads ws ie (rev (splitlines is_nl_byte t)).
+  Proof.
+    unfold ril_tail. destruct (is_nil t) eqn:E.
+    - destruct t; [reflexivity|discriminate].
+    - unfold bytes_splitlines. destruct (ends_lf t); reflexivity.
+  Qed.
+
+  (* forward and reverse mirror each other for EVERY text *)
+  Lemma universal_mirror ie t : ie = true \/ forallb (line_ok loads ws) (splitlines is_nl_byte t) = true ->
+    exists os, jsonl_objects loads ws ie (file_iter_text t) = (os, false)
+            /\ jsonl_objects loads ws ie (ril_tail t) = (rev os, false).
+  Proof.
+    intros D. pose proof (forward_text_universal ie t []) as F. rewrite !glue_nil in F.
+    rewrite F, objects_ril_tail.
+    rewrite (objects_total loads ws ie _ D).
+    rewrite objects_total.
+    - rewrite flat_map_rev_small. eexists. split; reflexivity.
+    - destruct D as [D|D]; [left; exact D|right].
+      rewrite forallb_forall in *. intros l I. apply D. apply in_rev. exact I.
+  Qed.
+End Universal.
+
+(* UTF-8 text-mode file holding ANY text t (lone \r included): same objects, mirrored *)
+Theorem jsonl_text_mirror_all {obj} (loads : text -> option obj) :
+  (forall s, loads (s ++ [LF]) = loads s) ->
+  forall t ie, forallb is_scalar t = true ->
+  ie = true \/ forallb (line_ok loads is_ws_str) (splitlines is_nl_byte t) = true ->
+  exists os, jsonl_iter loads TextUtf8 ie false (utf8_encode t) = Ok (os, false)
+          /\ jsonl_iter loads TextUtf8 ie true (utf8_encode t) = Ok (rev os, false).
+Proof.
+  intros L t ie S D. cbn [jsonl_iter]. rewrite decode_encode by exact S.
+  rewrite reverse_text_all; [|unfold jsonl_blocksize; lia|exact S].
+  rewrite !next_all_eq.
+  destruct (universal_mirror loads is_ws_str eq_refl L ie t D) as [os [F R]].
+  exists os. rewrite F, R. split; reflexivity.
+Qed.
